@@ -117,6 +117,12 @@ def trendAt (ys : List Rat) (i : Nat) : Rat :=
   let intercept := my - coef * mt
   intercept + coef * (i : Rat)
 
+/-- `Z.fillna(value=Z_pred)` at position `i` holding `x` -/
+def driftAt (filled : List Rat) (i : Nat) (x : Option Rat) : Option Rat :=
+  match x with
+  | some v => some v
+  | none => some (trendAt filled i)
+
 /-- the method's own fill (before the final ffill/backfill that every method gets) -/
 def stage1 (m : Method) (value : Option Rat) (z : OSeries) : OSeries :=
   match m with
@@ -126,9 +132,7 @@ def stage1 (m : Method) (value : Option Rat) (z : OSeries) : OSeries :=
   | .drift =>
       -- `Z_filled = Z.ffill().bfill()`; degree-1 trend fitted on `Z_filled`; `Z.fillna(value=Z_pred)`
       let filled := validValues (bfill (ffill z))
-      z.zipIdx.map (fun p => match p.1 with
-        | some v => some v
-        | none => some (trendAt filled p.2))
+      z.zipIdx.map (fun p => driftAt filled p.2 p.1)
   | .mean => fillValue (meanValid z) z
   | .median => fillValue (medianValid z) z
   | .linear => interpLinear z
